@@ -1,3 +1,6 @@
 #!/bin/bash
-# tools/coqchk.sh : re-check every compiled Props module and everything it depends on with Coq's independent checker; prints the axiom summary
-cd /verif/coq && timeout 3000 coqchk -silent -o -Q theories UJ $(ls theories/Props/*.v | sed 's|theories/|UJ.|; s|/|.|g; s|\.v$||')
+# tools/coqchk.sh : re-check every compiled Props module, every link module of coq/gen (compiled by the checks that use them) and everything
+# they depend on with Coq's independent checker; prints the axiom summary
+cd /verif/coq && timeout 3000 coqchk -silent -o -Q theories UJ -Q gen UJGen \
+  $(ls theories/Props/*.v | sed 's|theories/|UJ.|; s|/|.|g; s|\.v$||') \
+  $(ls gen/*Link.vo 2>/dev/null | sed 's|gen/|UJGen.|; s|\.vo$||')
